@@ -22,7 +22,7 @@ def relpath(p, repo):
 class Elem:
     __slots__ = ("func", "block", "i", "cls", "op", "ty", "decl", "val", "strv",
                  "kidrefs", "loc", "macro", "text", "null", "label", "decls",
-                 "argty", "argdecl", "argderef", "argtext", "lv", "_kids", "_norm")
+                 "argty", "argdecl", "argderef", "argtext", "lv", "_kids", "_norm", "iline", "inlined")
 
     def __init__(self, func, block, i, d, repo):
         self.func = func
@@ -51,6 +51,8 @@ class Elem:
         self.argderef = d.get("argderef", False)
         self.argtext = d.get("argtext")
         self.lv = d.get("lv", False)
+        self.iline = d.get("iline")          # set by sa/inline.py on elements copied from a new static helper
+        self.inlined = d.get("inlined")
         self._kids = None
         self._norm = None
 
@@ -72,6 +74,9 @@ class Elem:
 
     @property
     def line(self):
+        if self.iline:
+            # an element inlined from a new helper is ordered at its call site (then by the helper's own lines)
+            return self.iline
         m = re.match(r".*:(\d+):\d+$", self.loc or "")
         return int(m.group(1)) if m else 0
 
@@ -790,7 +795,7 @@ class Func:
 
 
 class Unit:
-    def __init__(self, path, facts, repo):
+    def __init__(self, path, facts, repo, inline_helpers=True):
         self.path = path
         self.repo = repo
         self.records = facts.get("records", {})
@@ -800,7 +805,19 @@ class Unit:
         for g in self.globals:
             g["loc"] = relpath(g.get("loc", ""), repo)
             g["file"] = relpath(g.get("file", ""), repo)
-        self.funcs = [Func(self, f, repo) for f in facts.get("functions", [])]
+        # new static helpers (functions the pinned tree does not have) are inlined into their callers, so that a rule about a
+        # function's statements still sees them after an "extract function" refactoring (sa/inline.py)
+        self.inlined = []
+        if inline_helpers and not os.environ.get("VERIF_NO_INLINE"):
+            from . import inline
+            try:
+                self.inlined = inline.apply(facts, repo)
+            except Exception as ex:           # never let the convenience break the analysis: fall back to the plain facts
+                self.inlined = []
+        # a helper that has been inlined at every one of its call sites is not looked at on its own in this view (out of its
+        # callers' context a relational rule has nothing to decide it from); Program.raw() is the view that keeps it
+        gone = set(self.inlined)
+        self.funcs = [Func(self, f, repo) for f in facts.get("functions", []) if f["name"] not in gone]
         self.by_name = {}
         for f in self.funcs:
             self.by_name.setdefault(f.name, f)
@@ -838,14 +855,17 @@ class Unit:
 class Program:
     """All units of one configuration."""
 
-    def __init__(self, units=None, config=cdb.HOST, repo=None):
+    def __init__(self, units=None, config=cdb.HOST, repo=None, inline_helpers=True, _paths=None):
         self.repo = repo or cdb.REPO
         self.config = config
-        paths = cdb.extract(units, config, self.repo)
+        paths = _paths if _paths is not None else cdb.extract(units, config, self.repo)
+        self._paths = paths
+        self._inline = inline_helpers
+        self._raw = None
         self.units = {}
         for u, p in sorted(paths.items()):
             with open(p) as f:
-                self.units[u] = Unit(u, json.load(f), self.repo)
+                self.units[u] = Unit(u, json.load(f), self.repo, inline_helpers)
         self.funcs = {}        # non-static name -> Func (defined in its own unit)
         for u in self.units.values():
             for f in u.funcs:
@@ -855,6 +875,16 @@ class Program:
                     continue
                 if f.name not in self.funcs or f.file == u.path:
                     self.funcs[f.name] = f
+
+    def raw(self):
+        """The same program without the inlining of new static helpers (sa/inline.py): the view for rules that work with
+        per-function summaries (ownership, failure reporting, the reference tables of sa/common.py), which follow a helper
+        through its summary and would lose sight of an acquisition that has become an assignment from a placeholder."""
+        if not any(u.inlined for u in self.units.values()):
+            return self
+        if self._raw is None:
+            self._raw = Program(None, self.config, self.repo, inline_helpers=False, _paths=self._paths)
+        return self._raw
 
     def unit(self, path):
         u = self.units.get(path)
